@@ -14,7 +14,7 @@ const nsPerSec = 1000000000
 // time.Time is {wall uint64, ext int64, loc *Location}; we keep unix
 // nanoseconds in ext (wall = 0, loc = nil). The zero Time is ext == 0.
 func (e *Exec) mkTime(ns *Term) Value {
-	return StructV{e.ctx.BVConst(64, 0), ns, (*Value)(nil)}
+	return StructV{e.intConst(64, 0), ns, (*Value)(nil)}
 }
 
 func timeNs(v Value) *Term {
@@ -140,7 +140,7 @@ func (e *Exec) ctxMethod(th *Thread, c *CtxV, m string, a []Value) Value {
 		if c.deadline != nil {
 			return TupleV{e.mkTime(c.deadline), e.ctx.True}
 		}
-		return TupleV{e.mkTime(e.ctx.BVConst(64, 0)), e.ctx.False}
+		return TupleV{e.mkTime(e.intConst(64, 0)), e.ctx.False}
 	case "Value":
 		for p := c; p != nil; p = p.parent {
 			if p.kv != nil {
@@ -186,7 +186,7 @@ func registerTime() {
 	I["time.Unix"] = func(e *Exec, th *Thread, fn *ssa.Function, a []Value) Value {
 		c := e.ctx
 		sec, nsec := a[0].(*Term), a[1].(*Term)
-		ns := c.Add(c.Mul(sec, c.BVConst(64, nsPerSec)), nsec)
+		ns := c.Add(c.Mul(sec, e.intConst(64, nsPerSec)), nsec)
 		if nsec.IsConst() && nsec.Int64() >= 0 && nsec.Int64() < nsPerSec {
 			e.unixOrigin[ns] = sec
 		}
@@ -210,10 +210,10 @@ func registerTime() {
 	I["(time.Time).Compare"] = func(e *Exec, th *Thread, fn *ssa.Function, a []Value) Value {
 		c := e.ctx
 		x, y := timeNs(a[0]), timeNs(a[1])
-		return c.Ite(c.SLt(x, y), c.BVConst(64, -1), c.Ite(c.Eq(x, y), c.BVConst(64, 0), c.BVConst(64, 1)))
+		return c.Ite(c.SLt(x, y), e.intConst(64, -1), c.Ite(c.Eq(x, y), e.intConst(64, 0), e.intConst(64, 1)))
 	}
 	I["(time.Time).IsZero"] = func(e *Exec, th *Thread, fn *ssa.Function, a []Value) Value {
-		return e.ctx.Eq(timeNs(a[0]), e.ctx.BVConst(64, 0))
+		return e.ctx.Eq(timeNs(a[0]), e.intConst(64, 0))
 	}
 	I["(time.Time).UnixNano"] = func(e *Exec, th *Thread, fn *ssa.Function, a []Value) Value { return timeNs(a[0]) }
 	I["(time.Time).Unix"] = func(e *Exec, th *Thread, fn *ssa.Function, a []Value) Value {
@@ -222,10 +222,10 @@ func registerTime() {
 			return s
 		}
 		e.timeDivs++
-		return e.ctx.SDiv(ns, e.ctx.BVConst(64, nsPerSec))
+		return e.ctx.SDiv(ns, e.intConst(64, nsPerSec))
 	}
 	I["(time.Time).UnixMilli"] = func(e *Exec, th *Thread, fn *ssa.Function, a []Value) Value {
-		return e.ctx.SDiv(timeNs(a[0]), e.ctx.BVConst(64, 1000000))
+		return e.ctx.SDiv(timeNs(a[0]), e.intConst(64, 1000000))
 	}
 	I["(time.Time).String"] = func(e *Exec, th *Thread, fn *ssa.Function, a []Value) Value {
 		return &SymStr{parts: []interface{}{"time(", symPart{"%d", timeNs(a[0])}, ")"}}
@@ -241,15 +241,21 @@ func registerTime() {
 			v := d.Int64()
 			return c.FPConst(float64(v/nsPerSec) + float64(v%nsPerSec)/1e9)
 		}
-		if sp, ok := e.durSplit[d]; ok {
-			return c.FPBin("fp.add", c.FPFromBV(sp[0], true), c.FPBin("fp.div", c.FPFromBV(sp[1], true), c.FPConst(1e9)))
+		// d built as sec*1e9 + nsec with 0 <= nsec < 1e9 (harness cut: keeps the
+		// 64-bit division by 10^9 away from the bit-blaster, DESIGN §2.9)
+		if d.op == "bvadd" && d.args[0].op == "bvmul" && d.args[0].args[1].IsConst() && d.args[0].args[1].c.Int64() == nsPerSec {
+			sec, nsec := d.args[0].args[0], d.args[1]
+			inRange := c.AndN(c.SLe(e.intConst(64, 0), nsec), c.SLt(nsec, e.intConst(64, nsPerSec)), c.SLe(e.intConst(64, 0), sec), c.SLt(sec, e.intConst(64, 1<<33)))
+			if e.feasible(c.Not(inRange)) == Unsat {
+				return c.FPBin("fp.add", c.FPFromBV(sec, true), c.FPBin("fp.div", c.FPFromBV(nsec, true), c.FPConst(1e9)))
+			}
 		}
-		sec := c.SDiv(d, c.BVConst(64, nsPerSec))
-		nsec := c.SRem(d, c.BVConst(64, nsPerSec))
+		sec := c.SDiv(d, e.intConst(64, nsPerSec))
+		nsec := c.SRem(d, e.intConst(64, nsPerSec))
 		return c.FPBin("fp.add", c.FPFromBV(sec, true), c.FPBin("fp.div", c.FPFromBV(nsec, true), c.FPConst(1e9)))
 	}
 	I["(time.Duration).Milliseconds"] = func(e *Exec, th *Thread, fn *ssa.Function, a []Value) Value {
-		return e.ctx.SDiv(a[0].(*Term), e.ctx.BVConst(64, 1000000))
+		return e.ctx.SDiv(a[0].(*Term), e.intConst(64, 1000000))
 	}
 	I["(time.Duration).Nanoseconds"] = func(e *Exec, th *Thread, fn *ssa.Function, a []Value) Value { return a[0] }
 	I["(time.Duration).String"] = func(e *Exec, th *Thread, fn *ssa.Function, a []Value) Value {
